@@ -1,6 +1,6 @@
 """C19 (engine model + acceptance of real engine lives)."""
 import tops
-from engine import EngineC, EngineHandover
+from engine import EngineC, EngineHandover, EngineHammer
 
 
 class FaultRegistration(EngineHandover):
@@ -9,7 +9,7 @@ class FaultRegistration(EngineHandover):
 
 
 def main(tier, replay):
-    return tops.run("C19", [EngineC(), FaultRegistration()], tier,
+    return tops.run("C19", [EngineC(), FaultRegistration(), EngineHammer()], tier,
                     level_text="Lean model of the engine life cycle: control API decision table and a small-step system of the goroutines of a shutdown (Props/C19.lean); tie: the real engine is run through its public API (every shutdown source, 1..4 loops, reactor and SO_REUSEPORT mode, ticker on/off, unix/tcp, Register racing with Stop) and the coarse trace of every life must be accepted by the model's trace acceptor; oracles check completeness, finality and the API table",
                     assumptions=["wall-clock bounds are outside Lean (a 10 s deadline in the runs)", "the trace is coarse: callbacks, API probe results, Run's return"],
                     replay=replay,
